@@ -18,7 +18,7 @@ PKG = "internal/home"
 FILES = ["zz_verif_common_test.go", "zz_verif_c12_test.go"]
 
 RL_ACTIONS = {"Attempt", "Tick"}
-AU_ACTIONS = {"Login", "Use", "Logout", "Tick", "Restart"}
+AU_ACTIONS = {"Login", "Use", "LogoutCall", "LogoutDo", "LogoutRet", "Tick", "Restart"}
 
 
 def classify(rec):
@@ -30,7 +30,7 @@ def classify(rec):
 def act_str(a):
     k = a["k"]
     if k == "attempt":
-        return "attempt %s %s" % (a["a"], "ok" if a["ok"] else "bad")
+        return "attempt %s %s %s" % (a["a"], a["c"], "ok" if a["ok"] else "bad")
     if k == "tick":
         return "tick %d" % a["d"]
     if k == "restart":
@@ -43,7 +43,47 @@ def rl_state(s):
 
 
 def au_state(s):
-    return ";".join("%s=%d,%d" % (t, s["mem"][t], s["db"][t]) for t in sorted(s["mem"]))
+    st = ";".join("%s=%d,%d" % (t, s["mem"][t], s["db"][t]) for t in sorted(s["mem"]))
+    busy = ["%s:%s" % (t, s["lo"][t]) for t in sorted(s["lo"]) if s["lo"][t] != "idle"]
+    return st + ("|" + ",".join(busy) if busy else "")
+
+
+def compose_au(edges, names):
+    """Turn the fine-grained edges of Auth.tla (logout = call / do / ret with
+    other steps in between) into what the harness can execute from a quiescent
+    state: the sequential actions, 'logout t' = call;do;ret, and
+    'race t u' = a logout of t concurrent with one request carrying u, whose
+    admissible outcomes are those of every interleaving TLC found
+    (call; use; do; ret and call; do; use; ret)."""
+    fine = {}
+    for (src, act, dst, out) in edges:
+        fine.setdefault(src, {}).setdefault(act, set()).add((dst, out))
+
+    def one(src, act):
+        r = fine.get(src, {}).get(act, set())
+        if len(r) != 1:
+            raise vlib.Inconclusive("Auth graph: %d successors of %s by %s" % (len(r), src, act))
+        return next(iter(r))[0]
+
+    res = set()
+    for src in fine:
+        if "|" in src:
+            continue
+        for act, outs in fine[src].items():
+            if act.split()[0] in ("login", "use", "tick", "restart"):
+                res |= {(src, act, d, o) for (d, o) in outs}
+        for t in names:
+            s1 = one(src, "lcall " + t)
+            s2 = one(s1, "ldo " + t)
+            res.add((src, "logout " + t, one(s2, "lret " + t), "ok"))
+            for u in names:
+                for (x, o) in fine[s1]["use " + u]:            # the request comes first
+                    res.add((src, "race %s %s" % (t, u), one(one(x, "ldo " + t), "lret " + t), o))
+                for (x, o) in fine[s2]["use " + u]:            # the logout comes first
+                    res.add((src, "race %s %s" % (t, u), one(x, "lret " + t), o))
+    if any("|" in e[2] for e in res):
+        raise vlib.Inconclusive("Auth graph: composed edge ends in a non-quiescent state")
+    return res
 
 
 def build_graphs(vectors):
@@ -63,6 +103,9 @@ def build_graphs(vectors):
     out = []
     for key in sorted(graphs):
         g = graphs[key]
+        if key[0] == "AU":
+            g["fine_edges"] = len(g["edges"])
+            g["edges"] = compose_au(g["edges"], g["names"])
         g["init"] = ";".join("%s=0,0" % nm for nm in g["names"])
         g["edges"] = sorted(g["edges"])
         if not any(e[0] == g["init"] for e in g["edges"]):
@@ -161,7 +204,7 @@ def run(ctx):
     graphs = build_graphs(rl["vectors"] + au["vectors"])
     nedges = sum(len(g["edges"]) for g in graphs)
     ctx.log("graphs: %d configurations, %d distinct edges" % (len(graphs), nedges))
-    if len(graphs) < 12 or nedges < 3000:
+    if len(graphs) < 12 or nedges < 3000 or not any(e[1].startswith("race") for g in graphs for e in g["edges"]):
         raise vlib.Inconclusive("too few configurations/edges: %d/%d" % (len(graphs), nedges))
 
     # ---- direction A
@@ -208,7 +251,7 @@ def run(ctx):
     bad_au, conf_au = trace_half(ctx, "TraceAuth", p_au, t_au, "au")
     for rec in conf_rl:
         ctx.disagreement(classify(rec), rec, "trace %s: %s %s ok=%s at %sms answered %s, table %s -> %s (n=%s, block=%sms, minute=%sms) rejected by TraceRateLimit" % (
-            rec["tr"], rec["k"], rec["a"], rec["ok"], rec["now"], rec["res"], rec["pre"], rec["post"], rec["n"], rec["b"], rec["w"]))
+            rec["tr"], rec["k"], "%s (claiming %s)" % (rec["a"], rec["c"]), rec["ok"], rec["now"], rec["res"], rec["pre"], rec["post"], rec["n"], rec["b"], rec["w"]))
     for rec in conf_au:
         ctx.disagreement(classify(rec), rec, "trace %s: %s %s at %ss answered %s, sessions %s -> %s (ttl=%ss) rejected by TraceAuth" % (
             rec["tr"], rec["k"], rec["t"], rec["now"], rec["res"], rec["pre"], rec["post"], rec["ttl"]))
